@@ -5,8 +5,8 @@ For each seeded/<id>: in a scratch worktree of HEAD apply patch.diff, run the de
 manifests, run the listed checks against it (tools/run_seeded.py --scratch) and record everything in seeded/<id>/meta.json
 under "revalidated".  Nothing touches /repo's working tree."""
 import json, os, re, shutil, subprocess, sys, glob
-WT = "/tmp/confirm-wt"
-TARGET = "/tmp/confirm-target"
+WT = os.environ.get("REVAL_WT", "/tmp/confirm-wt")
+TARGET = os.environ.get("REVAL_TARGET", "/tmp/confirm-target")
 CHECKS = {"C04": "C04,C02,C08", "C09": "C09,C08", "C10": "C10,C02,C01", "C16": "C16,C06", "C01": "C01", "C02": "C02", "C08": "C08,C01,C02"}
 
 
@@ -63,7 +63,7 @@ def main():
             rv["apply_error"] = out[-300:]
         if rv["manifests"]:
             # run_seeded applies the patch itself in its own scratch worktree
-            tmp = os.path.join("/tmp/seeds-reval", sid)
+            tmp = os.path.join(os.environ.get("REVAL_TMP", "/tmp/seeds-reval"), sid)
             shutil.rmtree(tmp, ignore_errors=True)
             os.makedirs(tmp)
             shutil.copy(os.path.join(d, "patch.diff"), tmp)
